@@ -20,8 +20,8 @@ use crate::{
 
 fn sizes<E: Engine>(ctx: &RunCtx) -> (usize, usize) {
     match (E::IS_F, ctx.tier) {
-        (true, Tier::Quick) => (1024, 64),
-        (true, Tier::Thorough) => (4096, 128),
+        (true, Tier::Quick) => (1024, 512),
+        (true, Tier::Thorough) => (4096, 1024),
         (false, Tier::Quick) => (256, 32),
         (false, Tier::Thorough) => (1024, 64),
     }
@@ -721,6 +721,9 @@ pub fn def() -> PropertyDef {
             cheat_sub::<F>((5000, 60_000)),
             cheat_sub::<R>((800, 6000)),
             crate::props::c03::cancel_sub::<F>((1500, 15_000)),
+            // adaptive cancellation with factors observed on earlier runs (the history generator of C08): a batch accepted
+            // although no member satisfies the relation is a soundness failure as much as a weighting failure
+            sub("F/adaptive-cancellation", crate::runner::no_fixed, (2500, 30_000), |_: &RunCtx, _: Option<&()>| crate::props::c08::hist_strategy(), crate::props::c08::oracle_acceptance_only),
             crate::fuzzdec::corpus_sub("verify"),
         ],
     }
